@@ -15,7 +15,7 @@ type HashMap<K, V> = std::collections::HashMap<
     std::hash::BuildHasherDefault<std::collections::hash_map::DefaultHasher>,
 >;
 
-#[derive(Debug, Default)]
+#[derive(Debug, Default, Clone)]
 pub struct MemTable {
     out: HashMap<InternalNodeId, Vec<EdgeKey>>,
     in_: HashMap<InternalNodeId, Vec<EdgeKey>>,
